@@ -2,7 +2,7 @@
    Requests (one per line):
      reset src|live            new object, all-closed
      open <0|1>   setnr <0|1>   send <id> <header> <size> <expected|-> <timeoutMs>   recv <header> <data|->
-     expire <i>   run <i>   adv <dt>   close1   close2   lerr
+     expire <i>   run <i>   adv <dt>   close1   close2   lerr   closeend   lerrend   openend
      sendf <as send>   runf <i>     the same, the driver reporting a link error from inside link.send_packet: reply
                                     `<reply of the critical section> | <reply of the deferred link error>` (the second only if transmitted)
    Reply: `ok tx=<sid>:<pkid>:<onClosed>,… new=<idx>:<interval>,… st=<one letter per timer: A C E D> link=<sid|->`
@@ -44,6 +44,9 @@ def parseEv? : List String → Option Ev
   | ["close1"] => some .closeSetpoint
   | ["close2"] => some .closeRest
   | ["lerr"] => some .linkError
+  | ["lerrend"] => some .linkErrorEnd
+  | ["closeend"] => some .closeEnd
+  | ["openend"] => some .openEnd
   | _ => none
 
 def failing (d : DState) (ws : List String) : DState × String :=
@@ -54,7 +57,7 @@ def failing (d : DState) (ws : List String) : DState × String :=
     | .error er => (d, "err " ++ showErr er)
     | .ok s1 =>
       if s1.log.length > d.s.log.length then
-        let s2 := stepT d.cfg s1 .linkError
+        let s2 := stepT d.cfg (stepT d.cfg s1 .linkError) .linkErrorEnd
         ({ d with s := stepReportingError d.cfg d.s e }, showDelta d.s s1 ++ " | " ++ showDelta s1 s2)
       else ({ d with s := s1 }, showDelta d.s s1)
 
